@@ -363,6 +363,21 @@ impl System {
                         };
                     }
                 }
+                // every other put of a task goes through the validated entry points (no hooks are
+                // installed: the same contract as put, their own sequence of per-layer steps)
+                if let (Op::Put { k }, true) = (op, task != SETUP_TASK && (task + opi) % 2 == 1) {
+                    let v = Bytes::from(cache_value(task, opi));
+                    let ck = cascette_crypto::ContentKey::from_data(&v);
+                    let r = if opi % 2 == 0 {
+                        c.put_with_validation(SKey(key_name(k)), ck, v).await.map(|_| ())
+                    } else {
+                        c.put_with_validation_and_ttl(SKey(key_name(k)), ck, v, Duration::from_secs(3600)).await.map(|_| ())
+                    };
+                    return match r {
+                        Ok(()) => Res::Unit,
+                        Err(e) => Res::Err(e.to_string()),
+                    };
+                }
                 match (op, exec_cache(c, op, task, opi).await) {
                     // remove() reports "found in some layer", collected layer by layer without a common
                     // lock: two overlapping removes can both report true (listed finding
